@@ -21,6 +21,10 @@
   inspection, `job_context` / `result_mapping` / `mapping_delta_parameters` / `results_list`, the cache
   test) and every operation of the machine under the real throttle with an explicit clock.
 
+  Last part ("wave 9: the shape of the status answer"): `Model/C17W.lean` — the status read on an answer
+  given by the keys it carries (`status`, `progress`, `progress_message`, `status_message`): the KeyError
+  paths of `RemoteJob.status`, and the proof that on complete answers it is the full machine.
+
   Not modelled (see manifest.d/C17.json): `requests`/`RPCHandler` internals, the payload
   (`_create_payload_data`, `_handle_params`, max_shots/max_samples), the mapping function itself
   (opaque: `RV.mapped`), `_running_phase`, the 1 ms sleep of `update_progress` when the
@@ -28,6 +32,7 @@
 -/
 import PercevalModel.Lemmas.C17
 import PercevalModel.Lemmas.C17X
+import PercevalModel.Lemmas.C17W
 import PercevalModel.Lemmas.C17R
 import PercevalModel.Lemmas.C17Y
 import PercevalModel.Lemmas.C17Z
@@ -1747,6 +1752,120 @@ theorem throttled_reads_do_not_count_witness :
        (.st .waiting, 1), (.st .waiting, 0), (.raised .conn, 1)] := by
   decide +kernel
 
+/-! ## wave 9: the shape of the status answer -/
+
+/-- WAVE 9 (Model/C17W.lean): the status read on the SHAPE of the server's answer (which keys the JSON object
+carries).  On answers that carry every key `RemoteJob.status` looks up for the status they announce, the machine
+with shaped answers IS the full machine over every history — so every theorem above holds of it. -/
+theorem shaped_machine_is_full_machine_on_complete_answers (fixed : Bool) (ts : List TWOp)
+    (h : ∀ t ∈ ts, t.complete = true) (f : FJob) :
+    run (wstep fixed) f ts = run (fstep fixed) f (ts.map TWOp.toF) :=
+  wrun_complete fixed ts h f
+
+example : ∀ t ∈ [(⟨5, .rawPoll .status (.status ⟨some "running", some 2, true, false, none, none, none⟩ 1)⟩ : TWOp),
+    ⟨6, .rawPoll .isComplete (.status ⟨some "error", none, false, true, none, none, none⟩ 2)⟩,
+    ⟨7, .rawPoll .status (.status ⟨some "waiting", none, false, false, none, none, none⟩ 2)⟩],
+    t.complete = true := by decide +kernel
+
+/-- An answer lacking a key the code looks up (`status`; `progress` / `progress_message` of a RUNNING or
+CANCEL_REQUESTED answer; `status_message` of an ERROR / CANCELED one), read by ANY sent unfinished job at ANY
+value of the streak counter, repaired or pinned code: KeyError leaves `status` at once (it is not absorbed, it is
+not counted), exactly one status request was sent, the streak counter is 0, the status is the one announced when
+the `status` key was there (already stored) and the old one otherwise; stop message, cached results, identifier,
+time / progress fields and name are untouched. -/
+theorem malformed_status_answer_outcome (fixed : Bool) (f : FJob) (now : Int) (rb : RawBody) (m : Nat) (k : Key)
+    (hd : statusDue f.job = true) (hk : rb.missing = some k) :
+    (readStatusW fixed f now (.status rb m)).2.1 = some .keyError ∧
+    (readStatusW fixed f now (.status rb m)).2.2 = [.status f.job.id] ∧
+    (readStatusW fixed f now (.status rb m)).1.job.id = f.job.id ∧
+    (readStatusW fixed f now (.status rb m)).1.job.streak = 0 ∧
+    (readStatusW fixed f now (.status rb m)).1.job.status =
+      (match rb.status with | none => f.job.status | some s => fromServer s) ∧
+    (readStatusW fixed f now (.status rb m)).1.job.msg = f.job.msg ∧
+    (readStatusW fixed f now (.status rb m)).1.job.cache = f.job.cache ∧
+    (readStatusW fixed f now (.status rb m)).1.job.sentCount = f.job.sentCount ∧
+    (readStatusW fixed f now (.status rb m)).1.ts = f.ts ∧
+    (readStatusW fixed f now (.status rb m)).1.hasBody = f.hasBody ∧
+    (readStatusW fixed f now (.status rb m)).1.name = f.name := by
+  rw [readStatusW_malformed fixed f now rb m k hd hk]
+  exact ⟨rfl, rfl, rfl, rfl, rfl, rfl, rfl, rfl, rfl, rfl, rfl⟩
+
+example : statusDue (⟨born 1, TS.fresh 0, true, "verif"⟩ : FJob).job = true ∧
+    (⟨some "running", none, true, true, none, none, none⟩ : RawBody).missing = some .progress := by decide +kernel
+
+/-- KeyError comes out of a status read exactly when the read reached the server and the answer lacks a key. -/
+theorem key_error_iff_malformed (fixed : Bool) (f : FJob) (now : Int) (r : RespW) :
+    (readStatusW fixed f now r).2.1 = some .keyError ↔ (statusDue f.job = true ∧ r.complete = false) := by
+  cases hd : statusDue f.job with
+  | false => simp [readStatusW_not_due _ _ _ _ hd]
+  | true =>
+    cases hc : r.complete with
+    | true =>
+      rw [readStatusW_complete _ _ _ _ hc]
+      simp [readStatusF_not_keyError]
+    | false =>
+      cases r with
+      | status rb m =>
+        simp only [RespW.complete] at hc
+        cases hk : rb.missing with
+        | none => simp [hk] at hc
+        | some k => rw [readStatusW_malformed fixed f now rb m k hd hk]; simp
+      | http c => simp [RespW.complete] at hc
+      | conn => simp [RespW.complete] at hc
+
+/-- An ERROR / CANCELED answer without `status_message`: the read raises KeyError, but the job IS final from
+then on (status stored, message not), and every later status read at any time on any answer is silent — the
+final-status theorems apply to the job it leaves. -/
+theorem malformed_final_answer_makes_job_final (fixed : Bool) (f : FJob) (now : Int) (rb : RawBody) (m : Nat)
+    (s : String) (hd : statusDue f.job = true) (hs : rb.status = some s)
+    (hf : (fromServer s).failed = true) (hm : rb.message = false) :
+    (readStatusW fixed f now (.status rb m)).2.1 = some .keyError ∧
+    (readStatusW fixed f now (.status rb m)).1.job.status = fromServer s ∧
+    (readStatusW fixed f now (.status rb m)).1.job.msg = f.job.msg ∧
+    ∀ now' r', readStatusW fixed (readStatusW fixed f now (.status rb m)).1 now' r' =
+      ((readStatusW fixed f now (.status rb m)).1, none, []) := by
+  have hr : (fromServer s).isRunning = false := by
+    cases h : fromServer s <;> simp_all [St.failed, St.isRunning]
+  have hk : rb.missing = some .message := by simp [RawBody.missing, hs, hr, hf, hm]
+  rw [readStatusW_malformed fixed f now rb m .message hd hk]
+  refine ⟨rfl, by simp [hs], rfl, ?_⟩
+  intro now' r'
+  apply readStatusW_not_due
+  simp [statusDue, hs, St.failed_completed _ hf]
+
+example : statusDue (⟨born 1, TS.fresh 0, true, "verif"⟩ : FJob).job = true ∧
+    (fromServer "canceled").failed = true := by decide +kernel
+
+/-- … and get_results of that job reports 'The job failed: None' (code as it is, not judged by the property) -/
+theorem failed_without_message_witness :
+    let f0 : FJob := ⟨born 1, TS.fresh 0, true, "verif"⟩
+    let p := pollW true f0 5 .status (.status ⟨some "error", none, false, false, none, none, none⟩ 1)
+    p.2 = ⟨.keyError, [.status (some 1)]⟩ ∧ p.1.job.status = .error ∧ p.1.job.msg = .none ∧
+    (getResultsF true p.1 6 .conn .conn .missing).2 = ⟨.base (.raised (.jobFailed .none)), [.results (some 1)]⟩ := by
+  decide +kernel
+
+/-- a malformed 200 answer in the middle of a run of connection errors restarts the count (the counter is reset
+before the body is looked at): four absorbed, KeyError, four absorbed again, the fifth raised -/
+theorem malformed_answer_restarts_streak_witness :
+    let bad : RespW := .status ⟨none, some 2, true, true, none, none, none⟩ 1
+    (run (wstep true) ⟨born 1, TS.fresh 0, true, "verif"⟩
+      ([RespW.conn, .conn, .conn, .conn, bad, .conn, .conn, .conn, .conn, .conn].map
+        fun r => ⟨5, .rawPoll .status r⟩)).2.map (fun o => (o.res, o.calls.length)) =
+      [(.base (.st .waiting), 1), (.base (.st .waiting), 1), (.base (.st .waiting), 1), (.base (.st .waiting), 1),
+       (.keyError, 1),
+       (.base (.st .waiting), 1), (.base (.st .waiting), 1), (.base (.st .waiting), 1), (.base (.st .waiting), 1),
+       (.base (.raised .conn), 1)] := by
+  decide +kernel
+
+/-- a `running` answer without `progress`: RUNNING is stored by plain assignment, `update_progress` /
+`update_times` never run (no start time, creation time of the answer ignored) -/
+theorem running_stored_without_progress_witness :
+    let p := pollW true ⟨born 1, TS.fresh 0, true, "verif"⟩ 5 .status
+      (.status ⟨some "running", none, true, true, some 1, some 2, none⟩ 1)
+    p.2.res = .keyError ∧ p.1.job.status = .running ∧ p.1.ts = TS.fresh 0 := by
+  decide +kernel
+
+
 /-
   Still NOT proved (validated by the correspondence and the direct oracles only):
   * `status_is_last_read` (ghost field `lastRead`) for the clocked machines at a positive delay — proved
@@ -1756,7 +1875,11 @@ theorem throttled_reads_do_not_count_witness :
   * "sent at most once" through `_from_dict(_to_dict())` is FALSE for the code as it is
     (`sent_at_most_once_needs_no_reopen_witness`); true from a state with an identifier
     (`sent_object_never_creates_under_throttle`);
-  * `execute_sync` on the combined machine; model = code (differential testing).
+  * `execute_sync` on the combined machine; model = code (differential testing);
+  * wave 9: shaped answers are fed to `status()` / `is_…` reads of the full machine with the transparent throttle;
+    the same answers inside the status reads of cancel / rerun / get_results / from_id / execute_sync and under the
+    real throttle are the same function `status` but are not separately modelled; answers that are not JSON objects
+    or carry values of the wrong type are outside the model.
 -/
 
 end PM.C17
